@@ -232,6 +232,7 @@ func c01CheckEpoch(e *vEpoch, access string) (class, detail string) {
 		ep.carHeaderSize = uint64(n) + hs
 	}
 	ctx := context.Background()
+	var held [][]byte
 	for i, o := range t.Objects {
 		got, err := ep.GetNodeByCid(ctx, o.Cid)
 		if err != nil {
@@ -239,6 +240,13 @@ func c01CheckEpoch(e *vEpoch, access string) (class, detail string) {
 		}
 		if !bytes.Equal(got, o.Data) {
 			return "fetch-by-cid-bytes", fmt.Sprintf("[%s] object %d (%s): %d bytes returned, %d stored, differ", access, i, o.Cid, len(got), len(o.Data))
+		}
+		held = append(held, got)
+	}
+	// the caller keeps what it was given: the bytes of an object must not change when other objects are fetched
+	for i, o := range t.Objects {
+		if !bytes.Equal(held[i], o.Data) {
+			return "fetch-by-cid-bytes-changed-later", fmt.Sprintf("[%s] object %d (%s): the bytes returned for it held its data, and hold something else after the other objects were fetched", access, i, o.Cid)
 		}
 	}
 	for _, b := range t.Blocks {
